@@ -33,7 +33,7 @@ fn bounds(tier: Tier, group: usize) -> Bounds {
         (Tier::Quick, 0) => Bounds { deviations: 1, depth: 5 },
         (Tier::Quick, 3) => Bounds { deviations: 1, depth: 4 },
         (Tier::Quick, 4) => Bounds { deviations: 1, depth: 3 },
-        (Tier::Thorough, 4) => Bounds { deviations: 2, depth: 4 },
+        (Tier::Thorough, 4) => Bounds { deviations: 1, depth: 3 },
         (Tier::Thorough, 3) => Bounds { deviations: 2, depth: 5 },
         (Tier::Quick, _) => Bounds { deviations: 1, depth: 3 },
         (Tier::Thorough, 0) => Bounds { deviations: 2, depth: 6 },
@@ -54,7 +54,7 @@ fn models(tier: Tier) -> Vec<(usize, Model)> {
             v.extend(gen::m7(0).into_iter().step_by(7).map(|m| (1, m)));
         }
         Tier::Thorough => {
-            v.extend(gen::m1(1).into_iter().step_by(2).map(|m| (0, m)));
+            v.extend(gen::m1(1).into_iter().step_by(4).map(|m| (0, m)));
             v.extend(gen::m2(1).into_iter().step_by(29).map(|m| (1, m)));
             v.extend(gen::m3(1).into_iter().step_by(5).map(|m| (1, m)));
             v.extend(gen::m5(1).into_iter().step_by(3).map(|m| (1, m)));
